@@ -29,6 +29,7 @@ LEAN_MODULES += gsmtime.LEAN_MODULES
 DRIVER_MODULES += gsmtime.DRIVER_MODULES
 LEAN_MODEL_MODULES += gsmtime.LEAN_MODEL_MODULES
 ASSUMPTIONS += gsmtime.ASSUMPTIONS
+MANIFEST = dict(MANIFEST, text=MANIFEST["text"] + gsmtime.MANIFEST_TEXT, note=MANIFEST["note"] + gsmtime.MANIFEST_NOTE)
 
 NF = 25          # scheduler depth the property speaks about
 NCB = 8          # capacity of one frame
